@@ -435,12 +435,17 @@ def case_tt_model(ctx, model):
     d2, d1, W0 = tr.hessian(fun, wrt=0, ntrax=2, full_output=True, sym=True)(Cq, **kw)
     g1 = tr.gradient(fun, wrt=0, ntrax=2, sym=True)(Cq, **kw)
     box = {"atom:root": (0.3, 3), "atom:log": (-5, 5), "atom:exp": (0, 50)}
+    tol = None
     ctx.equal("gradient_calls_agree", np.asarray(g1)[:, :, 0, 0], np.asarray(d1)[:, :, 0, 0])
     if has_energy:
         Wf = lambda X: np.asarray(tr.function(fun, wrt=0, ntrax=2)(q(X), **kw)).reshape(())  # noqa: E731
-        ctx.equal("dWdC_is_derivative_of_energy", np.asarray(g1)[:, :, 0, 0], ctx.jacobian_at(Wf, C, h=1e-6), rtol_replay=1e-5)
+        G = ctx.jacobian_at(Wf, C, h=1e-6)
+        ctx.equal("dWdC_is_derivative_of_energy", np.asarray(g1)[:, :, 0, 0], (G + G.T) / 2, rtol_replay=1e-5)
     Gf = lambda X: np.asarray(tr.gradient(fun, wrt=0, ntrax=2, sym=False)(q(X), **kw))[:, :, 0, 0]  # noqa: E731
-    ctx.equal("d2WdCdC_is_derivative_of_dWdC", np.asarray(d2)[:, :, :, :, 0, 0], ctx.jacobian_at(Gf, C, h=1e-6), rtol_replay=1e-5)
+    D = ctx.jacobian_at(Gf, C, h=1e-6)
+    # sym=True returns the tangent on the space of symmetric tensors: compare minor-symmetrised
+    Ds = (D + np.transpose(D, (1, 0, 2, 3)) + np.transpose(D, (0, 1, 3, 2)) + np.transpose(D, (1, 0, 3, 2))) / 4
+    ctx.equal("d2WdCdC_is_derivative_of_dWdC", np.asarray(d2)[:, :, :, :, 0, 0], Ds, rtol_replay=1e-5, tol=tol, box=box)
 
 
 def cases(tier):
